@@ -1,6 +1,8 @@
 ------------------------------- MODULE Timer -------------------------------
 (* C17 - round timeouts: once per arming, never early, never for stale rounds.
 
+   The module has two halves that share no action; Init picks one (part \in Parts).
+
    part = "timer": protocol/v2/qbft/roundtimer/timer.go (RoundTimer).
      TimeoutForRound(h, r)  ->  Arm(r): atomic store round := r, deadline := RoundTimeout(h, r), a NEW
                                 time.Timer and a NEW goroutine waitForRound(r, timer.C) per arming (the field
@@ -21,9 +23,13 @@
 
    part = "ctl": protocol/v2/qbft/controller/timer.go (Controller.OnTimeout) over the instance summary
      (round, decided, force-stopped) of every stored height, with the three ways a round changes
-     (UponRoundTimeout, partial round-change quorum, decided message) and StartNewInstance.
+     (UponRoundTimeout, partial round-change quorum, decided message), StartNewInstance and the
+     InstanceContainer's capacity (only the InstCap = 2 highest heights stay stored).  Code quirks kept as they
+     are: a timeout for a LATER round than the instance's also moves it on by one; a decided message of a future
+     height moves Controller.Height without force-stopping the running instance, whose timeouts stay live;
+     past instance.CutoffRound nothing is processed.
 
-   Weaken removes ONE guard (attack configs):
+   wk \in Weakens (chosen in Init) removes ONE guard (attack configs; {"none"} is the faithful spec):
      noRoundCheckOnWake, deadlineFromNowNotSlotStart, quickThresholdOffByOne, cancelIgnored, tickerNotTimer,
      ctlNoRoundCheck, ctlNoDecidedCheck, ctlNoStopCheck.                                                   *)
 EXTENDS Integers, Sequences, FiniteSets, TLC
@@ -37,7 +43,8 @@ CONSTANTS Params,     \* set of [role, slot, quick, slow, thr, start]; role \in 
           Parts,      \* subset of {"timer", "ctl"}: which half (chosen in Init; the halves share no action)
           Heights,    \* ctl: heights
           MaxCRound,  \* ctl: instance rounds 1..MaxCRound
-          Cutoff      \* ctl: instance.CutoffRound
+          Cutoff,     \* ctl: instance.CutoffRound
+          InstCap     \* ctl: controller.InstanceContainerDefaultCapacity (2): only the InstCap highest heights stay stored
 
 VARIABLES part,       \* "timer" | "ctl"
           wk,         \* the ONE guard this behaviour runs without ("none": faithful)
@@ -150,13 +157,19 @@ Advance ==
 (* controller half *)
 Running(i) == i.st = "run" /\ ~i.decided /\ ~i.stopped
 
+(* InstanceContainer.addNewInstance keeps the container sorted by height and holds at most InstCap instances: the
+   lowest one is ejected, and an instance lower than all of a full container is not stored at all *)
+Stored == {x \in Heights : inst[x].st # "none"}
+Kept(S) == {x \in S : Cardinality({y \in S : y > x}) < InstCap}
+
 (* StartNewInstance(h): refuses past heights and stored heights; force-stops every other stored instance;
    Instance.Start arms round 1 *)
 CStart(h) ==
     /\ part = "ctl" /\ h \in Heights /\ h >= cH /\ inst[h].st = "none"
     /\ cH' = h
     /\ inst' = [x \in Heights |-> IF x = h THEN [st |-> "run", round |-> 1, decided |-> FALSE, stopped |-> FALSE]
-                                  ELSE IF inst[x].st = "run" THEN [inst[x] EXCEPT !.stopped = TRUE] ELSE inst[x]]
+                                  ELSE IF x \in Kept(Stored \cup {h}) THEN [inst[x] EXCEPT !.stopped = TRUE]
+                                  ELSE NoInst]
     /\ tarm' = [n |-> tarm.n + 1, round |-> 1]
     /\ act' = [name |-> "CStart", h |-> h]
     /\ UNCHANGED <<rcs, tvars, cbad>>
@@ -176,7 +189,11 @@ CBump(r) ==
    the instances already stored *)
 CDecide(h, r) ==
     /\ part = "ctl" /\ h \in Heights /\ r \in 1..MaxCRound /\ ~inst[h].decided
-    /\ inst' = [inst EXCEPT ![h] = [st |-> "run", round |-> r, decided |-> TRUE, stopped |-> inst[h].stopped]]
+    /\ LET dec == [st |-> "run", round |-> r, decided |-> TRUE, stopped |-> inst[h].stopped]
+           keep == Kept(Stored \cup {h})
+       IN inst' = IF inst[h].st # "none" THEN [inst EXCEPT ![h] = dec]
+                  ELSE IF h \in keep THEN [x \in Heights |-> IF x = h THEN dec ELSE IF x \in keep THEN inst[x] ELSE NoInst]
+                  ELSE inst
     /\ cH' = IF h > cH THEN h ELSE cH
     /\ act' = [name |-> "CDecide", h |-> h, r |-> r]
     /\ UNCHANGED <<rcs, tarm, tvars, cbad>>
